@@ -55,6 +55,10 @@ ACCS = {
     'append_mut': (_append_mut, True),
     'dict_mut': (_dict_mut, True),
     'arr_mut': (_arr_mut, True),
+    'nested_mut': (lambda a, i: (a[0].append(i), (a[0], a[1] + 1))[1], True),
+    'nested_dict_mut': (lambda a, i: (a['seen'].append(i), a.__setitem__('n', a['n'] + 1), a)[2], True),
+    # returns None for some prefixes: None is a legitimate accumulator value, not "no state yet"
+    'maybe_none': (lambda a, i: None if i % 3 == 2 else ((a if a is not None else (50, 50))[0] + i, (a if a is not None else (50, 50))[1] + 1), False),
 }
 SEEDS = {
     # name -> (make user seed argument, is factory)
@@ -62,6 +66,7 @@ SEEDS = {
     'list_value': (lambda: [], False), 'list_value_nonempty': (lambda: [100], False),
     'list_factory': (lambda: list, True), 'dict_factory': (lambda: dict, True),
     'arr_factory': (lambda: (lambda: array('q')), True), 'dict_value': (lambda: {}, False),
+    'nested_value': (lambda: ([], 0), False), 'nested_dict_value': (lambda: {'n': 0, 'seen': []}, False),
 }
 TERMS = {
     None: None,
@@ -83,6 +88,9 @@ COMBOS = [
     ('append_mut', 'list_factory', [None, 'mark_mut', 'sorted']),
     ('dict_mut', 'dict_factory', [None, 'clear_dict']), ('dict_mut', 'dict_value', [None]),
     ('arr_mut', 'arr_factory', [None]),
+    ('maybe_none', 'pair00', [None]),
+    ('nested_mut', 'nested_value', [None]),
+    ('nested_dict_mut', 'nested_dict_value', [None]),
 ]
 NAMED = [['count', False], ['count', True], ['sum', False], ['sum', True], ['mean', False], ['mean', True], ['min', False], ['min', True],
          ['max', False], ['max', True], ['variance', False], ['variance', True], ['to_list'], ['to_array', 'q'], ['batch', 2], ['batch', 3],
@@ -185,7 +193,7 @@ class C09(Check):
     ID = 'C09'
     LEVEL = 'exploration'
     BUDGET = {'quick': 30, 'thorough': 240}
-    RULE = ('case = (variant, context, input). Variants: 12 accumulator/seed combinations (immutable int/float/tuple folds; list building by copy and by in-place append; in-place dict and array; '
+    RULE = ('case = (variant, context, input). Variants: 15 accumulator/seed combinations (one whose accumulator returns None for some prefixes, two whose seed VALUE nests a mutable container inside a tuple / dict) (immutable int/float/tuple folds; list building by copy and by in-place append; in-place dict and array; '
             'seeds given as values - incl. a non-empty mutable value - and as factories) x reduce on/off x terminators (pure and in-place) - and the 21 operators defined through scan '
             '(count, sum, mean, min, max, variance with reduce on/off, to_list, to_array, batch, distinct_until_changed, progress, dist.update). Contexts: plain observable, one multiplexed key, '
             'group_by with interleaved keys, roll (w != s and w == s: key slots reused by successive lifetimes), split, time_split with empty windows (empty keys), group_by>roll. '
